@@ -38,6 +38,14 @@ TEXT = {
         "level": "Generated histories followed / interleaved by dump feeds from generated start CAS values: between the markers exactly one event per document with CAS >= start, in CAS order, each equal (opcode, body, xattrs, datatype, CAS, expiry, RevNo) to the model and to the datatype of the live event of the same version. The start-up gap is explored by scheduled scripts.",
         "design_ref": "DESIGN.md 4 (C09)", "note": SEQ_NOTE, "technique": SEQ_TECH + "; live-vs-backfill differential",
     },
+    "C11": {
+        "level": "Generated histories spread over 2-3 collections with identical key names next to a second bucket with the same names: all entry points incl. Touch, expiries, purge, design docs + views, SQL queries, per-collection and multi-collection feeds, DropDataStore and re-creation through any handle. After every step every key of every other collection and of the other bucket reads back identical, other collections' query/view/design-doc probes return identical bytes, their feeds received nothing; drops remove exactly one collection, end exactly its feeds, and re-creation yields an empty collection through every handle.",
+        "design_ref": "DESIGN.md 4 (C11)", "note": SEQ_NOTE + " The twin bucket is passive (never addressed by the generated operations).", "technique": SEQ_TECH + "; frame condition + differential probes over time",
+    },
+    "C12": {
+        "level": "Generated design documents from a grammar of map functions with a Go twin, generated documents, all write entry points, design-doc replacement, and view queries with generated parameters placed anywhere in the history; every stale=false result is compared with (a) the twin evaluated over the model's documents with an own implementation of key collation restricted to the generated key domain and (b) a freshly built identical view (incremental == from scratch).",
+        "design_ref": "DESIGN.md 4 (C12)", "note": SEQ_NOTE + " Keys are null/booleans/small numbers/[0-9a-z] strings/arrays thereof; include_docs, limit+reduce and updateAfter are not generated. *WithMeta writes are excluded by known finding K01.", "technique": SEQ_TECH + "; differential against an independent evaluator and against a fresh index",
+    },
     "C17": {
         "level": "Generated histories over all mutating entry points: after each successful mutation the revision number (read through $document.revid, $document, live RevNo and backfill RevNo) is previous+1, 1 on creation or re-creation after purge, unchanged on failure.",
         "design_ref": "DESIGN.md 4 (C17)", "note": SEQ_NOTE, "technique": SEQ_TECH,
@@ -45,6 +53,10 @@ TEXT = {
     "C18": {
         "level": "Generated JSON documents, dotted paths, values and CAS classes for WriteSubDoc / SubdocInsert compared with a parse-edit-marshal reference (JSON-value equality), xattrs untouched, refusals leave the document unchanged; lost-update races explored by scheduled scripts.",
         "design_ref": "DESIGN.md 4 (C18)", "note": SEQ_NOTE + " Numbers are compared as float64.", "technique": SEQ_TECH + "; differential against a reference implementation",
+    },
+    "C19": {
+        "level": "Generated histories over 1-3 collections sharing key names on memory and disk buckets with queries from a family (all rows, id = / LIKE / IN, COUNT(*), body and xattr property predicates, ordered or not, four iteration styles) placed anywhere; each result is compared as list / multiset of (id, body bytes, xattrs) with the same predicate evaluated in Go over the model.",
+        "design_ref": "DESIGN.md 4 (C19)", "note": SEQ_NOTE + " Only the listed query family, not arbitrary SQL.", "technique": SEQ_TECH + "; differential against a Go evaluation of the same predicate",
     },
 }
 
